@@ -141,6 +141,18 @@ fn id_pool(r: &mut Rng) -> Vec<String> {
     for d in ["uaura", "uusd", "uaurau", "usd", "u", "aura", "uaurauusd", "ibc/1F", "ibc/1", "F", "ua", "urau", "uaur", "auusd", "a", "b", "ab", "ba", "aa", "aaa"] {
         v.push(format!("n{}", hexs(d.as_bytes())));
     }
+    // long denoms (token-factory / IBC style, up to the SDK's 128 bytes) sharing long prefixes
+    let creator = "factory/aura1qyqszqgpqyqszqgpqyqszqgpqyqszqgpqyqszqgpqyqszqgpqyqs0ewtp9/";
+    for sub in ["gold", "golds", "silver", "g"] {
+        v.push(format!("n{}", hexs(format!("{creator}{sub}").as_bytes())));
+    }
+    let h64 = "27394FB092D2ECCD56123C74F36E4C1F926001CEADA9CA97EA622B25F41E5EB2";
+    v.push(format!("n{}", hexs(format!("ibc/{h64}").as_bytes())));
+    v.push(format!("n{}", hexs(format!("ibc/{}3", &h64[..63]).as_bytes())));
+    v.push(format!("n{}", hexs("x".repeat(64).as_bytes())));
+    v.push(format!("n{}", hexs("x".repeat(65).as_bytes())));
+    v.push(format!("n{}", hexs("x".repeat(127).as_bytes())));
+    v.push(format!("n{}", hexs("x".repeat(128).as_bytes())));
     for i in 0..6 {
         let name = format!("contract{}", i * 7 + r.below(3));
         let c = api.addr_canonicalize(&name).unwrap();
@@ -169,7 +181,7 @@ pub fn generate(o: &mut Out, family: &str, r: &mut Rng, n: u64) {
                     o.case("pair_key", vec!["one".into(), format!("{x}.{y}")]);
                 }
             }
-            let sub: Vec<&String> = pool.iter().take(16).collect();
+            let sub: Vec<&String> = pool.iter().take(14).chain(pool.iter().skip(20).take(10)).collect();
             for a in 0..sub.len() {
                 for b in a..sub.len() {
                     for c in 0..sub.len() {
